@@ -502,7 +502,7 @@ class ProgGen:
         n = r.randint(0, 5)
         k = r.choice(['rec', 'counter', 'hof', 'loop', 'shadow', 'quote', 'qq', 'eval', 'variadic', 'setdeep', 'twoclos', 'letseq',
                       'nil1', 'nil2', 'nil3', 'nil4', 'mset', 'mset2', 'msetclo', 'recshadow', 'laterdef', 'evaldef', 'casesym', 'casesym',
-                      'emptylet', 'variadic2', 'letseq2', 'laterdo', 'letdefine', 'conddef', 'opdefine'])
+                      'emptylet', 'variadic2', 'letseq2', 'laterdo', 'letdefine', 'conddef', 'opdefine', 'rebind'])
         f, g, x, y = self.fresh(), self.fresh(), r.choice(self.names), r.choice(self.names)
         if k == 'casesym':
             # clause keys are data: a key that happens to be the name of a variable in scope (at any distance) still
@@ -531,6 +531,10 @@ class ProgGen:
             return [['define', x, n], ['quasiquote', [1, ['unquote', x], ['unquote-splice', ['list', x, 2]], 'z']]]
         if k == 'eval':
             return [['define', x, n], ['eval', ['quote', ['+', x, 1]]], ['let', [[x, 10]], ['eval', ['quote', ['*', x, 2]]]]]
+        if k == 'rebind':
+            # one call site, evaluated several times, follows the binding that is in scope each time
+            return [['define', f, ['fn', [], n]], ['define', g, ['fn', [], [f]]], [g], ['set', [f, ['fn', [], ['+', n, 10]]]], [g],
+                    ['define', x + 'h', ['fn', [f], [f]]], [x + 'h', f], [x + 'h', ['fn', [], 77]], [g]]
         if k == 'opdefine':
             # a define among the operands of another form binds in the frame that evaluates the form
             return [['define', x, 5], [['fn', [y + 'a'], ['set', [x, ['do', ['define', x, 1], n]]]], 1], x,
